@@ -66,7 +66,7 @@ def run_C11(ctx):
         "the specification's context table (spec/Lang.tla) is an independent transcription of the JSight API 0.3 table",
     ]
     # M + G: complete graph, all action properties; the harness replays every edge.
-    r = ctx.tlc("MC_C11", timeout=600)
+    r = ctx.tlc("MC_C11", timeout=600, coverage=True)
     res = ctx.vh("c11-replay", r.out)
     if res["cases"] != r.generated - 1:
         raise MachineryError("emitted %d edges but TLC generated %d states" % (res["cases"], r.generated))
@@ -108,7 +108,7 @@ def run_C13(ctx):
                        "the specification's run to end of file on exactly that tape. Non-trivial = distinct (outcome, error class, lexeme shape, tape length).")
     ctx.assumptions += ["the keyword list of spec/Lang.tla is an independent transcription of the JSight API 0.3 keywords",
                         "a body start directly behind a keyword is judged by jsight-schema-core (outcome 'oracle': lexeme prefix compared)"]
-    r = ctx.tlc("MC_C13", timeout=600)
+    r = ctx.tlc("MC_C13", timeout=600, coverage=True)
     res = ctx.vh("scan-replay", r.out, env={"VH_DISTINCT": "len"})
     if res["cases"] == 0 or res.get("counters", {}).get("tables-compared") != 1:
         raise MachineryError("C13: nothing replayed or keyword tables not compared")
@@ -610,7 +610,7 @@ def run_C18(ctx):
                        "Trace_C18.tla against the digest of the same call run alone; every report of the race detector is a violation. Non-trivial = rounds x phases.")
     ctx.assumptions += ["real schedules cannot be forced without hooks in the dependency: replay is statistical (rounds x goroutines with start barriers, GOMAXPROCS = all cores)",
                         "the race detector is the observer for the 'no data race' clause"]
-    ctx.tlc("Conc", cfg="Conc_ok.cfg", timeout=600, label="Conc(ok)")
+    ctx.tlc("Conc", cfg="Conc_ok.cfg", timeout=600, label="Conc(ok)", coverage=True, zero_ok=("Skip",))
     for cfg, inv in (("Conc_unlockedpool.cfg", "Sequential"), ("Conc_fastpath.cfg", "NoPartialContent")):
         r = ctx.tlc("Conc", cfg=cfg, timeout=600, label="Conc(negative:%s)" % cfg, allow_violation=True)
         if inv not in r.violated:
